@@ -222,7 +222,7 @@ PROPS = {
         technique="Lean 4 proof (soundness/completeness of the backtracking matcher by induction on fuel with a measure; list lemmas for the planner) + exhaustive differential correspondence",
     ),
     "C15": dict(
-        modules=["Copia.Props.C15", "Copia.Props.C15b", "Copia.Props.C15c", "Copia.Props.C04"], namespaces=["Copia.C15", "Copia.C04.dry_run"], runner=["rust", "bb"], bb_module="bb_oneway",
+        modules=["Copia.Props.C15", "Copia.Props.C15b", "Copia.Props.C15c", "Copia.Props.C15d", "Copia.Props.C04"], namespaces=["Copia.C15", "Copia.C04.dry_run"], runner=["rust", "bb"], bb_module="bb_oneway",
         assumptions=COMMON_ASSUME + [
             "names are valid UTF-8 (`to_string_lossy` is the identity)",
             "dry-run clause: decided by the black-box correspondence on the real CLI (see DESIGN.md §5 C15); the theorems here cover exclusion semantics, protection and opt-in deletes",
